@@ -97,10 +97,11 @@ def strip_comments(src: str) -> str:
     return re.sub(r"--.*", "", src)
 
 
-def lake_build(clean: bool = False) -> tuple[bool, str]:
+def lake_build(clean: bool = False, prop: str | None = None) -> tuple[bool, str]:
     if clean:
         subprocess.run(["lake", "clean"], cwd=LEAN, capture_output=True, text=True)
-    p = subprocess.run(["lake", "build", "Physt", "physt_driver"], cwd=LEAN, capture_output=True, text=True)
+    targets = ["Physt", "physt_driver"] + ([f"Physt.Theorems.{prop}"] if prop else [])
+    p = subprocess.run(["lake", "build"] + targets, cwd=LEAN, capture_output=True, text=True)
     return p.returncode == 0, (p.stdout + p.stderr)[-4000:]
 
 
@@ -117,7 +118,7 @@ def example_count(prop: str) -> int:
 def audit(prop: str, tier: str) -> dict:
     """Build, forbidden-token scan, #print axioms for every property theorem of `prop`."""
     res = {"ok": True, "problems": [], "theorems": [], "axioms": {}, "examples": 0}
-    ok, log = lake_build(clean=False)
+    ok, log = lake_build(clean=False, prop=prop)
     if not ok:
         res["ok"] = False
         res["problems"].append("lake build failed: " + log[-1500:])
